@@ -18,7 +18,7 @@ PID = 'C01'
 RULE = ('cases = (package, extinction law, A_V range, sources) drawn from the quantifier of C01; a case is '
         'non-trivial when at least one model is fitted with >=2 fitted bands of distinct extinction coefficient; '
         'distinct = distinct canonical hash of the generated inputs')
-REQUIRED_BRANCHES = ['range_end_zero', 'law_other_unit', 'clamp_low', 'clamp_high', 'interior', 'lo_eq_hi', 'limit_violated', 'limit_ok', 'flag4', 'flag0or9']
+REQUIRED_BRANCHES = ['pkg_v1_mJy', 'pkg_v1_Jy', 'pkg_cube', 'pkg_cube_memmap', 'range_end_zero', 'law_other_unit', 'clamp_low', 'clamp_high', 'interior', 'lo_eq_hi', 'limit_violated', 'limit_ok', 'flag4', 'flag0or9']
 ASSUMPTIONS = ['IEEE rounding is not modelled: comparison tolerance 1e-9 x condition number',
                'decisions closer than 1e-7 to their threshold are compared in relaxed mode']
 N = {'quick': 160, 'thorough': 3000}
@@ -82,7 +82,19 @@ def gen_case(rng, directed=None):
                 flux.append(f)
                 err.append(float('%.3g' % (f * nice(rng, 1e-3, 0.5, 2))))
         sources.append(dict(flags=flags, flux=flux, err=err))
-    return dict(kind=kind, wavs=wavs, tab_w=tw, tab_chi=chi, wav_unit=wav_unit, models=models, av=av, sources=sources)
+    # how the model fluxes reach the fitter: convolved-flux files in mJy or Jy (version 1), or a cube package fitted at
+    # tabulated wavelengths (version 2; with use_memmap the fluxes are held as float32)
+    pkg = rng.choice(['v1_mJy', 'v1_mJy', 'v1_Jy', 'cube', 'cube_memmap'])
+    return dict(kind=kind, wavs=wavs, tab_w=tw, tab_chi=chi, wav_unit=wav_unit, models=models, av=av, sources=sources,
+                pkg=pkg)
+
+
+def fluxes_mJy(case):
+    """the float64 model fluxes in mJy as the code derives them from what the package stores"""
+    from astropy import units as u
+    if case.get('pkg') == 'v1_Jy':
+        return [[float((float('%.4g' % (x / 1000.)) * u.Jy).to(u.mJy).value) for x in mf] for mf in case['models']]
+    return [[float(x) for x in mf] for mf in case['models']]
 
 
 def table_in_unit(case):
@@ -105,20 +117,66 @@ def gen_cases(seed, tier):
 
 
 def build(case, scratch_dir):
+    from astropy import units as u
     nm = len(case['models'])
     names = ['m%03d' % i for i in range(nm)]
     d = scratch_dir
+    pkg = case.get('pkg', 'v1_mJy')
+    unit, tab, _, _ = table_in_unit(case)
+    ext = pk.make_extinction(tab, case['tab_chi'], wav_unit=unit)
+    if pkg.startswith('cube'):
+        # cube package whose tabulated wavelengths are the filters' (plus two more), one aperture, stored in
+        # increasing or decreasing wavelength; fitted at wavelengths given instead of filter names
+        extra = [min(case['wavs']) / 3., max(case['wavs']) * 3.]
+        allw = sorted(case['wavs'] + extra, reverse=(len(case['wavs']) % 2 == 0))
+        val = np.zeros((nm, 1, len(allw)))
+        for i in range(nm):
+            for jj, w in enumerate(allw):
+                val[i, 0, jj] = case['models'][i][case['wavs'].index(w)] if w in case['wavs'] else 1. + i + jj
+        pk.write_cube_package(d, names, allw, val, val * 0.1, apertures_au=[100.], aperture_dependent=False)
+        fnames = [w * u.micron for w in case['wavs']]
+        fitter = pk.make_fitter(d, fnames, [1.] * len(fnames), ext, case['av'], use_memmap=(pkg == 'cube_memmap'))
+        return fitter, names
     pk.write_conf(d, aperture_dependent=False)
     fnames = []
     for j, w in enumerate(case['wavs']):
         fn = 'F%d' % j
         fnames.append(fn)
-        pk.write_convolved(d, fn, w, names, [[case['models'][i][j]] for i in range(nm)],
-                           [[0.] for _ in range(nm)], apertures_au=None)
-    unit, tab, _, _ = table_in_unit(case)
-    ext = pk.make_extinction(tab, case['tab_chi'], wav_unit=unit)
+        if pkg == 'v1_Jy':
+            pk.write_convolved(d, fn, w, names, [[float('%.4g' % (case['models'][i][j] / 1000.))] for i in range(nm)],
+                               [[0.] for _ in range(nm)], apertures_au=None, unit=u.Jy)
+        else:
+            pk.write_convolved(d, fn, w, names, [[case['models'][i][j]] for i in range(nm)],
+                               [[0.] for _ in range(nm)], apertures_au=None)
     fitter = pk.make_fitter(d, fnames, [1.] * len(fnames), ext, case['av'])
     return fitter, names
+
+
+def f32_budget(case, src, e):
+    """bounds on the change of (av, sc, chi2) of one model when its fluxes are held as float32 (`use_memmap=True`):
+    the flux is rounded to float32 and np.log10 of a float32 array is evaluated in float32, so each model log flux moves
+    by at most d32; av and sc are linear in the residuals with the sensitivities of the normal equations"""
+    _, _, v, wq = table_in_unit(case)
+    _, tab, _, _ = table_in_unit(case)
+    k = -0.4 * np.interp(wq, tab, case['tab_chi'], left=0., right=0.) / np.interp(v, tab, case['tab_chi'])
+    fl = np.array(src['flags']); F = np.array(src['flux'], float); E = np.array(src['err'], float)
+    w = np.zeros(len(fl))
+    r1 = fl == 1
+    w[r1] = (np.log(10.) / np.abs(E[r1] / F[r1])) ** 2
+    r4 = fl == 4
+    w[r4] = 1. / E[r4] ** 2
+    lmax = max(abs(math.log10(x)) for mf in fluxes_mJy(case) for x in mf)
+    d32 = 2. ** -24 * (1. / np.log(10.) + 3. * lmax)
+    m11, m12, m22 = np.sum(k * k * w), np.sum(k * -2. * w), np.sum(4. * w)
+    det = m11 * m22 - m12 * m12
+    tav = float(np.sum(np.abs(m22 * k + m12 * 2.) * w) / det)
+    tsc = float(np.sum(np.abs(m11 * -2. - m12 * k) * w) / det)
+    dav, dsc = 2. * d32 * tav, 2. * d32 * tsc
+    dres = d32 + dav * float(np.max(np.abs(k))) + 2. * dsc       # shift of any residual-minus-model term
+    sw = float(np.sum(w))
+    c = abs(float(e['chi2']))
+    dchi = 2. * (2. * math.sqrt(c * sw) * dres + sw * dres ** 2)
+    return dav, dsc, dchi, dres
 
 
 def model_side(case, src):
@@ -136,8 +194,9 @@ def model_side(case, src):
             # (theorem C03_ignored), so zeros are sent in their place
             x, e = 0., 0.
         line += [str(f), rat(x), rat(e)]
-    line.append(str(len(case['models'])))
-    for mf in case['models']:
+    mfs = fluxes_mJy(case)
+    line.append(str(len(mfs)))
+    for mf in mfs:
         line.append(rats(mf))
     t = drv.ask(' '.join(line))
     n = t.nat()
@@ -194,7 +253,14 @@ def run_case(case):
                 e = exp[names.index(nme)]
                 tol = 1e-9 * max(1., e['cond'])
                 scale = 1. + abs(float(e['av'])) + abs(float(e['sc']))
-                if e['margin'] < 1e-7 * scale:
+                dav = dsc = dchi = 0.
+                guard = 1e-7 * scale
+                if case.get('pkg') == 'cube_memmap':
+                    # float32 storage of the model fluxes: a larger rounding budget, and decisions are only
+                    # compared when their margin is well above it
+                    dav, dsc, dchi, dres = f32_budget(case, src, e)
+                    guard = max(guard, 20. * max(dav, dres))
+                if e['margin'] < guard:
                     relaxed += 1
                     continue
                 av_m = float(e['av'])
@@ -205,16 +271,9 @@ def run_case(case):
                         branches.add('clamp_high')
                     else:
                         branches.add('interior')
-                # limit branches
-                c2m = float(e['chi2'])
-                for f in src['flags']:
-                    if f in (2, 3):
-                        branches.add('limit_ok')  # refined below through chi2 comparison
-                if c2m >= 1e29 or any(f in (2, 3) for f in src['flags']):
-                    pass
-                okav = common.close(got['av'][row], e['av'], tol)
-                oksc = common.close(got['sc'][row], e['sc'], tol)
-                okc2 = common.close(got['chi2'][row], e['chi2'], max(tol, 1e-9) * 10, scale=1.)
+                okav = abs(got['av'][row] - float(e['av'])) <= tol * (1. + abs(float(e['av']))) + dav
+                oksc = abs(got['sc'][row] - float(e['sc'])) <= tol * (1. + abs(float(e['sc']))) + dsc
+                okc2 = abs(got['chi2'][row] - float(e['chi2'])) <= max(tol, 1e-9) * 10 * (1. + abs(float(e['chi2']))) + dchi
                 if not (okav and oksc and okc2):
                     det = ('source %d model %s: impl (av, sc, chi2) = (%r, %r, %r); exact constrained optimum '
                            '(av, sc, chi2) = (%r, %r, %r); cond=%.3g margin=%.3g range=%r'
@@ -222,9 +281,8 @@ def run_case(case):
                               float(e['av']), float(e['sc']), float(e['chi2']), e['cond'], e['margin'], case['av']))
                     return CaseResult(False, detail=det, violates=True, branches=branches)
             # limit violated / ok histogram from the model side
-            for e in exp:
-                pen = float(e['chi2'])
             branches |= limit_branches(case, src, exp)
+            branches.add('pkg_' + case.get('pkg', 'v1_mJy'))
         key = common.canon_hash(case)
         sample = dict(kind=case['kind'], n_models=len(case['models']), n_bands=len(case['wavs']),
                       av_range=case['av'], source0=case['sources'][0])
@@ -304,7 +362,7 @@ def property_holds(case):
             r23 = (fl == 2) | (fl == 3)
             lf[r23] = np.log10(F[r23])
             for row, nme in enumerate(got['name']):
-                mf = np.log10(np.array(case['models'][names.index(nme)], float))
+                mf = np.log10(np.array(fluxes_mJy(case)[names.index(nme)], float))
                 res = lf - mf
 
                 def ssq(a, sc):
